@@ -1,6 +1,7 @@
 /-
   C18 — invalid configurations are rejected before any input is read or output written.
 -/
+import Jawk.Lemmas.ParseRender
 import Jawk.Model.Run
 namespace Jawk.C18
 open Jawk
@@ -116,5 +117,55 @@ theorem direction_cases :
 /-- non-vacuity: a configuration that `build` rejects exists (csv with a JSON option) -/
 example : ∃ f, build {} { style := .csv, jsonOpts := some {} } = .error f :=
   style_option_mismatch_rejected {} _ (Or.inl ⟨rfl, Or.inl rfl⟩)
+
+
+/-! ### what the expression parser accepts is well-formed; the rest is rejected (helper `Jawk/Lemmas/ParseRender.lean`) -/
+
+/-- every expression that parses — in any option — has, at every call node, a function of the table regenerated
+from the source and an argument count within that function's bounds -/
+theorem parsed_ast_well_formed {s : Str} {e : Expr} (h : parseWholeExpr s = .ok e) : PR.WellFormed e :=
+  PR.parseWholeExpr_well_formed h
+
+theorem well_formed_call (fn : String) (args : List Expr) :
+    PR.WellFormed (.call fn args) ↔ PR.ArityOK fn args.length ∧ ∀ a ∈ args, PR.WellFormed a :=
+  PR.wellFormed_call fn args
+
+/-- an unknown function name is rejected -/
+theorem unknown_function_rejected (name : Str) (fuel : Nat) (r : Reader)
+    (h : findFunction (String.ofList (PR.splitDot name).1) = none) :
+    PR.resolveCall name fuel r = (.error (.unknownFunction (PR.splitDot name).1), r) :=
+  PR.unknown_function_rejected name fuel r h
+
+/-- too few / too many arguments are rejected, anything within the bounds is accepted -/
+theorem arity_rejected (name : Str) (fuel : Nat) (sig : FnSig) (r r1 r2 : Reader) (args : List Expr)
+    (b : Option Byte)
+    (h : findFunction (String.ofList (PR.splitDot name).1) = some sig)
+    (hargs : parseArgs fuel (PR.splitDot name).2 r = (.ok args, r1))
+    (hnext : Reader.next r1 = (.ok b, r2)) :
+    (args.length < sig.min → PR.resolveCall name fuel r = (.error (.missingArgument sig.name), r2)) ∧
+    (∀ m, sig.max = some m → sig.min ≤ args.length → m < args.length →
+      PR.resolveCall name fuel r = (.error (.tooManyArgument sig.name), r2)) ∧
+    (sig.min ≤ args.length → (∀ m, sig.max = some m → args.length ≤ m) →
+      PR.resolveCall name fuel r = (.ok (.call sig.name args), r2)) :=
+  PR.arity_rejected name fuel sig r r1 r2 args b h hargs hnext
+
+/-- trailing text after a complete expression is rejected in `--filter` / `--split-by` / `--group-by` … -/
+theorem trailing_garbage_rejected (s : Str) (e : Expr) (r2 : Reader)
+    (hget : readGetter (exprFuel s) (Reader.eatWhitespace (exprFuel s) (Reader.ofString s)).2 = (.ok e, r2))
+    (ws : List Byte) (hws : ∀ x ∈ ws, Reader.isWs x = true) (b : Byte) (hb : Reader.isWs b = false) (rest : List Byte)
+    (hr2 : RT.Ready r2 (ws ++ b :: rest)) (hf : ws.length < exprFuel s) :
+    ∃ loc, parseWholeExpr s = .error (.expectingEof loc b) ∧
+      parseOptionExpr s = .error (exprErrText (.expectingEof loc b)) :=
+  PR.parseWholeExpr_trailing_garbage s e r2 hget ws hws b hb rest hr2 hf
+
+/-- … and an unknown direction word after a `--sort-by` expression is rejected -/
+theorem unknown_direction_rejected (s : Str) (e : Expr) (r2 : Reader)
+    (hget : readGetter (exprFuel s) (Reader.eatWhitespace (exprFuel s) (Reader.ofString s)).2 = (.ok e, r2))
+    (bs : List Byte) (hr2 : RT.Ready r2 bs) (hf : bs.length < exprFuel s) (t : Str)
+    (hdec : utf8Decode? bs = some t)
+    (hdir : (trimStr t).map upperChar ≠ [] ∧ (trimStr t).map upperChar ≠ "ASC".toList ∧
+      (trimStr t).map upperChar ≠ "DESC".toList) :
+    parseSorterParts s = .ok (e, t) ∧ parseSorter s = .error "UnknownOrder" :=
+  PR.parseSorter_unknown_direction s e r2 hget bs hr2 hf t hdec hdir
 
 end Jawk.C18
